@@ -66,7 +66,19 @@ pub struct BRule {
 #[derive(Clone, Debug, Serialize, Deserialize)]
 pub enum AgendaTrace {
     A { hash_seed: u64, ops: Vec<AOp> },
-    B { hash_seed: u64, engine: Engine, rules: Vec<BRule>, x0: i64, facts: u8, second_call: bool },
+    B {
+        hash_seed: u64,
+        engine: Engine,
+        rules: Vec<BRule>,
+        x0: i64,
+        facts: u8,
+        second_call: bool,
+        /// IncrementalEngine, what the client does between the two calls: 0 reset + insert (a new epoch),
+        /// 1 update the first fact (same contents), 2 insert another fact, 3 retract the first fact and insert
+        /// it again — 1-3 WITHOUT reset, so the no-loop record must carry over
+        #[serde(default)]
+        between: u8,
+    },
 }
 
 pub struct AgendaWorld;
@@ -396,7 +408,7 @@ fn cond_value(r: &BRule) -> String {
     }
 }
 
-fn run_b(engine: Engine, rules: &[BRule], x0: i64, nfacts: u8, second_call: bool, obs: &mut Obs) -> Result<(), Violation> {
+fn run_b(engine: Engine, rules: &[BRule], x0: i64, nfacts: u8, second_call: bool, between: u8, obs: &mut Obs) -> Result<(), Violation> {
     clock::install(1_700_000_000_000);
     clock::set_mono_tick_pattern(vec![0, 0, 1]);
     let n = rules.len().max(1) as u64;
@@ -417,6 +429,8 @@ fn run_b(engine: Engine, rules: &[BRule], x0: i64, nfacts: u8, second_call: bool
     }
     let calls = if second_call { 2 } else { 1 };
     let mut total_fired = 0usize;
+    // names fired since the last reset, before the call being judged
+    let carry: std::cell::RefCell<Vec<String>> = std::cell::RefCell::new(Vec::new());
     let judge = |r: Result<Vec<String>, Box<dyn std::any::Any + Send>>, call: usize, obs: &mut Obs| -> Result<usize, Violation> {
         match r {
             Ok(list) => {
@@ -433,14 +447,19 @@ fn run_b(engine: Engine, rules: &[BRule], x0: i64, nfacts: u8, second_call: bool
                 // noloop.once at the engines: between resets (the second call follows a reset) a no-loop rule
                 // is in the returned list at most once, however many facts match it and whatever its action does
                 for (i, r) in rules.iter().enumerate().filter(|(_, r)| r.no_loop) {
-                    let k = list.iter().filter(|nm| **nm == format!("R{i}")).count();
+                    let earlier = carry.borrow().iter().filter(|nm| **nm == format!("R{i}")).count();
+                    let k = earlier + list.iter().filter(|nm| **nm == format!("R{i}")).count();
+                    if earlier > 0 {
+                        obs.count("probe.no_loop_record_carried_over_a_client_write");
+                    }
                     if k > 1 {
-                        return Err(viol("noloop.once", site, "no-loop-rule-fired-more-than-once-in-fire-all", format!("no-loop rule R{i} ({r:?}) is {k} times in the list fire_all returned: {list:?}"), call));
+                        return Err(viol("noloop.once", site, "no-loop-rule-fired-more-than-once-in-fire-all", format!("no-loop rule R{i} ({r:?}) fired {k} times since the last reset (earlier calls: {:?}; this call: {list:?})", carry.borrow()), call));
                     }
                     if k == 1 {
                         obs.count("probe.no_loop_rule_fired_in_engine_run");
                     }
                 }
+                carry.borrow_mut().extend(list.iter().cloned());
                 Ok(list.len())
             }
             Err(p) => {
@@ -494,6 +513,7 @@ fn run_b(engine: Engine, rules: &[BRule], x0: i64, nfacts: u8, second_call: bool
                 total_fired += judge(r, c, obs)?;
                 if c == 0 && second_call {
                     e.reset_fired_flags();
+                    carry.borrow_mut().clear();
                 }
             }
         }
@@ -526,6 +546,7 @@ fn run_b(engine: Engine, rules: &[BRule], x0: i64, nfacts: u8, second_call: bool
                 total_fired += judge(r, c, obs)?;
                 if c == 0 && second_call {
                     e.reset_fired_flags();
+                    carry.borrow_mut().clear();
                 }
             }
         }
@@ -557,23 +578,44 @@ fn run_b(engine: Engine, rules: &[BRule], x0: i64, nfacts: u8, second_call: bool
                 };
                 e.add_rule(rule, vec!["F".to_string()]);
             }
-            for k in 0..nfacts.max(1) {
+            let mk = |x: i64, y: bool| {
                 let mut d = TypedFacts::new();
                 d.set("on", true);
-                d.set("x", x0 + k as i64);
-                d.set("y", true);
-                e.insert("F".to_string(), d);
+                d.set("x", x);
+                d.set("y", FactValue::Boolean(y));
+                d
+            };
+            let mut first = None;
+            for k in 0..nfacts.max(1) {
+                let h = e.insert("F".to_string(), mk(x0 + k as i64, true));
+                first.get_or_insert(h);
             }
             for c in 0..calls {
                 let r = budget::with_budget(step_budget, || e.fire_all());
                 total_fired += judge(r, c, obs)?;
                 if c == 0 && second_call {
-                    e.reset();
-                    let mut d = TypedFacts::new();
-                    d.set("on", true);
-                    d.set("x", x0);
-                    d.set("y", FactValue::Boolean(false));
-                    e.insert("F".to_string(), d);
+                    match between % 4 {
+                        0 => {
+                            e.reset();
+                            carry.borrow_mut().clear();
+                            e.insert("F".to_string(), mk(x0, false));
+                        }
+                        // the client writes working memory, but does not reset: what fired stays fired
+                        1 => {
+                            if let Some(h) = first {
+                                let _ = e.update(h, mk(x0, true));
+                            }
+                        }
+                        2 => {
+                            e.insert("F".to_string(), mk(x0, true));
+                        }
+                        _ => {
+                            if let Some(h) = first {
+                                let _ = e.retract(h);
+                            }
+                            e.insert("F".to_string(), mk(x0, true));
+                        }
+                    }
                 }
             }
         }
@@ -723,7 +765,8 @@ impl World for AgendaWorld {
                 rules,
                 x0: rng.range(-1, 3),
                 facts: 1 + rng.below(3) as u8,
-                second_call: rng.chance(1, 3),
+                second_call: rng.chance(1, 2),
+                between: *rng.pick(&[0u8, 0, 1, 2, 3]),
             }
         }
     }
@@ -741,9 +784,9 @@ impl World for AgendaWorld {
                 obs.faulty = ops.iter().any(|o| matches!(o, AOp::Add(a) | AOp::Create(a) if a.clock_step_ns <= 1));
                 run_a(ops, obs)
             }
-            AgendaTrace::B { engine, rules, x0, facts, second_call, .. } => {
+            AgendaTrace::B { engine, rules, x0, facts, second_call, between, .. } => {
                 obs.faulty = true;
-                run_b(*engine, rules, *x0, *facts, *second_call, obs)
+                run_b(*engine, rules, *x0, *facts, *second_call, *between, obs)
             }
         }
     }
@@ -784,8 +827,8 @@ impl World for AgendaWorld {
                     out.push(AgendaTrace::A { hash_seed: 1, ops: ops.clone() });
                 }
             }
-            AgendaTrace::B { hash_seed, engine, rules, x0, facts, second_call } => {
-                let mk = |rules: Vec<BRule>, x0: i64, facts: u8, second_call: bool| AgendaTrace::B { hash_seed: *hash_seed, engine: *engine, rules, x0, facts, second_call };
+            AgendaTrace::B { hash_seed, engine, rules, x0, facts, second_call, between } => {
+                let mk = |rules: Vec<BRule>, x0: i64, facts: u8, second_call: bool| AgendaTrace::B { hash_seed: *hash_seed, engine: *engine, rules, x0, facts, second_call, between: *between };
                 for v in drop_chunks(rules) {
                     if !v.is_empty() {
                         out.push(mk(v, *x0, *facts, *second_call));
